@@ -53,7 +53,9 @@ def gain_of_policy(arr, pim, pinned):
     classes = []
     for c in range(ncomp):
         members = [i for i in range(nS) if comp[i] == c]
-        if all(abs(P[i][members].sum() - 1.0) <= 1e-12 for i in members):
+        outside = np.ones(nS, dtype=bool)
+        outside[members] = False
+        if not bool((P[members][:, outside] > 0).any()):       # structural: an exit probability of 2^-50 is an exit
             classes.append(members)
     rec = sorted(i for m in classes for i in m)
     trans = [i for i in range(nS) if i not in rec]
